@@ -119,71 +119,233 @@ def eval_path(path, func):
     return out, conds, env
 
 
+class _Choice(Exception):
+    pass
+
+
+def _leaf2(choices, cons):
+    """leaf resolver over *resolved* expressions (path summaries): every leaf
+    is an attribute of the described function or its code object; min()/max()
+    take the arm selected in `choices` and record the matching constraint"""
+    def leaf(n, env, ev):
+        if isinstance(n, ast.Attribute):
+            if n.attr == 'co_argcount':
+                return A
+            if n.attr == 'co_kwonlyargcount':
+                return K
+            if n.attr == 'co_varnames':
+                return Slice('varnames')
+            if n.attr == '__defaults__':
+                return Slice('defaults')
+            if n.attr == '__defaults_count__':
+                return D
+        if isinstance(n, ast.Name) and n.id == 'imlevel':
+            return M
+        if isinstance(n, ast.Tuple) and not n.elts:
+            # `defaults = ()` when the function has none: still "the defaults"
+            return Slice('defaults')
+        if isinstance(n, ast.Call) and isinstance(n.func, ast.Name):
+            if n.func.id == 'getattr' and len(n.args) >= 2 and \
+                    isinstance(n.args[1], ast.Constant):
+                nm = n.args[1].value
+                v = {'co_kwonlyargcount': K, '__defaults_count__': D,
+                     'co_argcount': A}.get(nm)
+                if v is not None:
+                    return v
+                if nm == '__defaults__':
+                    return Slice('defaults')
+                if nm == 'co_varnames':
+                    return Slice('varnames')
+            if n.func.id in ('min', 'max') and len(n.args) == 2 and not n.keywords:
+                key = norm_src(n)
+                k = choices.get(key)
+                if k is None:
+                    raise _Choice(key)
+                va, vb = ev.ev(n.args[0], env), ev.ev(n.args[1], env)
+                if not (isinstance(va, Aff) and isinstance(vb, Aff)):
+                    return Unknown(key[:50])
+                lo, hi = (va, vb) if k == 0 else (vb, va)    # chosen, other
+                if n.func.id == 'min':
+                    cons.append((hi - lo) if k == 0 else (hi - lo - Aff.const(1)))
+                else:
+                    cons.append((lo - hi) if k == 0 else (lo - hi - Aff.const(1)))
+                return lo
+            if n.func.id == 'len' and len(n.args) == 1:
+                v = ev.ev(n.args[0], env)
+                if isinstance(v, Slice) and v.base == 'defaults' and v.hi is None:
+                    return D - v.lo
+                if isinstance(v, Slice) and v.base == 'varnames' and v.hi is not None:
+                    return v.hi - v.lo
+            if n.func.id == 'bool' and len(n.args) == 1:
+                return ev.ev(n.args[0], env)
+        if isinstance(n, ast.DictComp) and len(n.generators) == 1 and \
+                not n.generators[0].ifs and isinstance(n.generators[0].target, ast.Tuple) \
+                and [norm_src(x) for x in n.generators[0].target.elts] == \
+                [norm_src(n.key), norm_src(n.value)]:
+            return ev.ev(n.generators[0].iter, env)
+        if isinstance(n, ast.BoolOp) and isinstance(n.op, ast.Or) and len(n.values) == 2:
+            # `len(defaults) or getattr(func, '__defaults_count__', 0)`: both are
+            # "the number of defaults" D; `x or ()`: x when present
+            va = ev.ev(n.values[0], env)
+            if isinstance(va, Aff) and va == D and ev.ev(n.values[1], env) == D:
+                return D
+        return None
+    return leaf
+
+
+def _infeasible(cons):
+    for g in cons:
+        if g.is_const() and g.norm().get(1, 0) < 0:
+            return True
+    for i, g in enumerate(cons):
+        for h in cons[i + 1:]:
+            t = g + h
+            if t.is_const() and t.norm().get(1, 0) < 0:
+                return True
+    return False
+
+
 def from_function_layout(rep, mod, rule):
-    """fromFunction's five fields against the co_varnames layout, all paths
-    (shared: C18 R18.1, C17 R17.5)"""
+    """fromFunction's five fields against the co_varnames layout, over the
+    path summaries (resolved stores and facts), for every choice of the
+    min()/max() arms (shared: C18 R18.1, C17 R17.5)"""
+    import itertools
+    from ..sympath import summaries as _S, normal as _N
+    from .sem import nt as _nt
     f = find_def(mod, 'fromFunction')
-    uses_inspect = bool(find_all(f, 'inspect.signature($$a)')) or \
-        bool(find_all(f, 'inspect.getfullargspec($$a)'))
-    if uses_inspect:
-        rep.check(rule, 'interface.fromFunction', True,
-                  'delegates to the inspect module (no index obligations)',
-                  construct='inspect', node=f)
-        for i in range(7):
-            rep.check(rule, 'interface.fromFunction', True, 'n/a',
-                      construct='inspect-%d' % i, node=f, nontrivial=False)
-    else:
-        cfg = cfg_of(f)
-        paths = cfg.paths(limit=4096)
-        rep.stat('paths_enumerated', len(paths))
-        fields = ('positional', 'required', 'optional', 'varargs', 'kwargs')
-        verdicts = {k: [] for k in fields}
-        negidx = []
-        npaths = 0
-        for path in paths:
-            if path[-1][0] is not cfg.exit:
+    site = 'interface.fromFunction'
+    fields = ('positional', 'required', 'optional', 'varargs', 'kwargs')
+    verdicts = {k: [] for k in fields}
+    negidx, prov, rets = [], [], []
+    ncases = 0
+    ss = _N(_S(f))
+    rep.stat('paths_enumerated', len(ss))
+    for ps in ss:
+        obj = _nt(ps.ret)
+        if not obj.startswith('Method('):
+            rets.append('returns `%s`' % obj[:60])
+            continue
+        stores = {}
+        for e in ps.events:
+            if e.kind == 'store' and isinstance(e.r, ast.Attribute) and \
+                    _nt(e.r.value) == obj and e.r.attr in fields:
+                stores[e.r.attr] = e
+        vals = {k: e.val for k, e in stores.items()}
+        # a dictionary filled through update(): its content is the argument
+        if 'optional' in vals and isinstance(vals['optional'], ast.Dict) and \
+                not vals['optional'].keys:
+            ups = [e for e in ps.events if e.kind == 'call' and
+                   isinstance(e.r.func, ast.Attribute) and e.r.func.attr == 'update'
+                   and _nt(e.r.func.value) == '{}' and len(e.r.args) == 1]
+            if len(ups) == 1:
+                vals['optional'] = ups[0].r.args[0]
+        facts = []
+        for c, t, p in ps.order:
+            if c.startswith(('ITER(', 'EXCEPT(')):
                 continue
-            npaths += 1
-            out, conds, env = eval_path(path, f)
-            va = conds.get('VARARGS')
-            vk = conds.get('VARKW')
-            neg = conds.get('NEG')
-            clamped = bool(neg and neg[1])
-            if neg is not None and isinstance(neg[0], Aff) and neg[0] != (A - M - D):
-                verdicts['required'].append(
-                    ('clamp test on %r (required: A - M - D)' % (neg[0],), path))
-            # every index / slice bound must be non-negative for all admissible
-            # inputs: a negative one is legal Python and silently counts from
-            # the end (names[-1] is the **kw name)
+            try:
+                facts.append((ast.parse(c, mode='eval').body, t, c))
+            except SyntaxError:
+                continue
+        # provenance of the layout data
+        for v in list(vals.values()) + [x for x, _, _ in facts]:
+            if v is None:
+                continue
+            for n in ast.walk(v):
+                if isinstance(n, ast.Attribute) and n.attr.startswith('co_') and \
+                        _nt(n.value) != 'func.__code__':
+                    prov.append('%s read from `%s`' % (n.attr, _nt(n.value)[:40]))
+                if isinstance(n, ast.Call) and isinstance(n.func, ast.Name) and \
+                        n.func.id == 'getattr' and len(n.args) >= 2 and \
+                        isinstance(n.args[1], ast.Constant):
+                    base = _nt(n.args[0])
+                    nm = n.args[1].value
+                    if str(nm).startswith('co_') and base != 'func.__code__':
+                        prov.append('%s read from `%s`' % (nm, base[:40]))
+                    if nm in ('__defaults__', '__defaults_count__') and base != 'func':
+                        prov.append('%s read from `%s`' % (nm, base[:40]))
+                if isinstance(n, ast.Attribute) and n.attr == '__defaults__' and \
+                        _nt(n.value) != 'func':
+                    prov.append('__defaults__ read from `%s`' % _nt(n.value)[:40])
+        # choice points
+        keys = []
+        for v in list(vals.values()) + [x for x, _, _ in facts]:
+            if v is None:
+                continue
+            for n in ast.walk(v):
+                if isinstance(n, ast.Call) and isinstance(n.func, ast.Name) and \
+                        n.func.id in ('min', 'max') and len(n.args) == 2:
+                    k_ = norm_src(n)
+                    if k_ not in keys:
+                        keys.append(k_)
+        for bits in itertools.product((0, 1), repeat=len(keys)):
+            choices = dict(zip(keys, bits))
             cons = [A, K, D, M]
-            if env.get('__M_le_A__'):
-                cons.append(A - M)
-            if neg is not None and isinstance(neg[0], Aff):
-                cons.append((Aff.const(0) - neg[0] - Aff.const(1)) if neg[1] else neg[0])
-            for kind, form, src in conds.get('__rel__', []):
+            ev = AffEval(_leaf2(choices, cons))
+            env = {}
+            va = vk = None
+            try:
+                for e_, t, c in facts:
+                    if 'CO_VARARGS' in c:
+                        va = t
+                        continue
+                    if 'CO_VARKEYWORDS' in c:
+                        vk = t
+                        continue
+                    if isinstance(e_, ast.Compare) and len(e_.ops) == 1 and \
+                            isinstance(e_.ops[0], ast.Lt):
+                        l, r = ev.ev(e_.left, env), ev.ev(e_.comparators[0], env)
+                        if isinstance(l, Aff) and isinstance(r, Aff):
+                            cons.append((r - l - Aff.const(1)) if t else (l - r))
+                out = {k: (ev.ev(v, env) if v is not None else None)
+                       for k, v in vals.items()}
+            except _Choice:
+                continue
+            if _infeasible(cons):
+                continue
+            ncases += 1
+            where = '%s%s' % ([c for _, _, c in facts][:6],
+                              (' with ' + str(choices)) if choices else '')
+            # the effective level: min(imlevel, co_argcount)
+            if provably_nonneg(A - M, cons):
+                Me = M
+            elif provably_nonneg(M - A - Aff.const(1), cons):
+                Me = A
+            else:
+                Me = M
+            if provably_nonneg(Aff.const(0) - (A - Me - D) - Aff.const(1), cons):
+                clamped = True
+            elif provably_nonneg(A - Me - D, cons):
+                clamped = False
+            else:
+                clamped = None
+            for kind, form, src in ev.rel:
                 if not provably_nonneg(form, cons):
                     negidx.append(('%s `%s` = %r can be negative (e.g. imlevel=1 for a '
                                    'method whose self is taken by *args: A=0, M=1)'
-                                   % (kind, src, form), path))
+                                   % (kind, src[-60:], form), where))
             want = {
-                'positional': Slice('varnames', M, A),
-                'required': Slice('varnames', M, M) if clamped
-                else Slice('varnames', M, A - D),
+                'positional': Slice('varnames', Me, A),
+                'required': Slice('varnames', Me, Me) if clamped
+                else Slice('varnames', Me, A - D),
                 'varargs': Elem('varnames', A + K) if va else None,
                 'kwargs': (Elem('varnames', A + K + Aff.const(1 if va else 0))
                            if vk else None),
             }
+            if va is None or vk is None:
+                verdicts['varargs' if va is None else 'kwargs'].append(
+                    ('CO_VARARGS / CO_VARKEYWORDS not tested on this path', where))
             for k in ('positional', 'required', 'varargs', 'kwargs'):
                 got = out.get(k, Unknown('never assigned on this path'))
                 ok = (got == want[k]) if want[k] is not None else (got is None)
                 if not ok:
-                    verdicts[k].append(('%s = %r, required %r' % (k, got, want[k]), path))
+                    verdicts[k].append(('%s = %r, required %r' % (k, got, want[k]), where))
             got = out.get('optional', Unknown('never assigned'))
             oko = False
             if isinstance(got, Zip) and isinstance(got.a, Slice) and isinstance(got.b, Slice):
                 if clamped:
-                    oko = got.a.base == 'varnames' and got.a.lo == M and \
-                        got.b.base == 'defaults' and got.b.lo == (D - A + M)
+                    oko = got.a.base == 'varnames' and got.a.lo == Me and \
+                        got.b.base == 'defaults' and got.b.lo == (D - A + Me)
                 else:
                     oko = got.a.base == 'varnames' and got.a.lo == (A - D) and \
                         got.b.base == 'defaults' and got.b.lo == Aff.const(0)
@@ -191,43 +353,29 @@ def from_function_layout(rep, mod, rule):
                 verdicts['optional'].append(
                     ('optional = %r (required zip(varnames[%s:], defaults[%s:]))'
                      % (got, 'M' if clamped else 'A - D',
-                        'D - (A - M)' if clamped else '0'), path))
-        rep.require(npaths >= 8, 'fromFunction: only %d normal paths' % npaths)
-        for k in fields:
-            bad = verdicts[k]
-            detail = '%s agrees with the co_varnames layout on all %d paths' % (k, npaths)
-            if bad:
-                detail = {'field': k, 'paths_violating': len(bad),
-                          'first': bad[0][0],
-                          'path': path_text(bad[0][1])[:40]}
-            rep.check(rule, 'interface.fromFunction', not bad, detail,
-                      construct=k, node=f)
-        rep.check(rule, 'interface.fromFunction', not negidx,
-                  'every index and slice bound into co_varnames is non-negative for '
-                  'all code objects and levels' if not negidx else
-                  {'paths_violating': len(negidx), 'first': negidx[0][0],
-                   'path': path_text(negidx[0][1])[:30]},
-                  construct='non-negative-index', node=f)
-        # names derived from the described function itself
-        nm = resolve_local(f, ast.Name(id='code', ctx=ast.Load()))
-        rep.check(rule, 'interface.fromFunction',
-                  match('func.__code__', nm) is not None,
-                  'the code object is func.__code__: %s' % norm_src(nm),
-                  construct='code', node=f)
-        df = [n.value for n in walk_local(f) if isinstance(n, ast.Assign)
-              and isinstance(n.targets[0], ast.Name) and n.targets[0].id == 'defaults']
-        ok = bool(df) and (match("getattr(func, '__defaults__', None) or ()", df[0])
-                           is not None or match('func.__defaults__ or ()', df[0]) is not None)
-        rep.check(rule, 'interface.fromFunction', ok,
-                  'defaults come from func.__defaults__', construct='defaults',
-                  node=f)
-        rets = [n for n in walk_local(f) if isinstance(n, ast.Return)]
-        rep.check(rule, 'interface.fromFunction',
-                  len(rets) == 1 and match('method', rets[0].value) is not None
-                  and rets[0] is f.body[-1],
-                  'a single return of the freshly built Method at the end (no '
-                  'memoized/early result)', construct='single-return', node=f)
-
+                        'D - (A - M)' if clamped else '0'), where))
+    rep.require_soft(ncases >= 8, 'fromFunction: only %d path cases' % ncases)
+    for k in fields:
+        bad = verdicts[k]
+        detail = '%s agrees with the co_varnames layout in all %d path cases' % (k, ncases)
+        if bad:
+            detail = {'field': k, 'cases_violating': len(bad), 'first': bad[0][0],
+                      'where': bad[0][1][:300]}
+        rep.check(rule, site, not bad, detail, construct=k, node=f)
+    rep.check(rule, site, not negidx,
+              'every index and slice bound into co_varnames is non-negative for '
+              'all code objects and levels' if not negidx else
+              {'cases_violating': len(negidx), 'first': negidx[0][0],
+               'where': negidx[0][1][:300]},
+              construct='non-negative-index', node=f)
+    rep.check(rule, site, not prov,
+              'the layout data (co_argcount, co_varnames, co_flags, __defaults__) '
+              'is read from func and func.__code__ only' if not prov else
+              {'problems': sorted(set(prov))[:3]}, construct='code', node=f)
+    rep.check(rule, site, bool(ss) and not rets,
+              'every path returns the Method it has just built and filled (no '
+              'memoized/early result)' if not rets else
+              {'problems': sorted(set(rets))[:3]}, construct='single-return', node=f)
 
 
 def run(rep):
